@@ -28,7 +28,7 @@ and the strategy moves batch boundaries), same `agg_result`, same
 AggregateResult through StopIteration.value; every helper thread finished.
 """
 from vmc import charness, enums, explorer, sharness
-from vmc.runner import Stats
+from vmc.runner import Stats, h64
 
 PROPERTY = 'C03'
 LEVEL = 'model_checking'
@@ -56,11 +56,21 @@ def _compare(st, strategy, klass, ref, batches, agg, returned, rows, replay,
   problems = []
   want, got = S.bag_of(ref.batches, rows), S.bag_of(batches, rows)
   if got != want:
-    problems.append((('row' if rows else 'batch') + '-multiset-differs',
-                     {'how': S._symptom(got, want), 'got': sorted(got.items()),
-                      'want': sorted(want.items())}))
+    detail = {'how': S._symptom(got, want)}
+    if len(want) <= 40:
+      detail.update(got=sorted(got.items()), want=sorted(want.items()))
+    else:     # long inputs: the differing entries only
+      diff = sorted((k, got.get(k, 0), want.get(k, 0))
+                    for k in set(got) | set(want)
+                    if got.get(k, 0) != want.get(k, 0))
+      detail.update(differing_entries=len(diff),
+                    first_differences_key_got_want=diff[:8])
+    problems.append((('row' if rows else 'batch') + '-multiset-differs', detail))
   if agg != ref.agg:
-    problems.append(('agg-result-differs', {'got': agg, 'want': ref.agg}))
+    d = {'got': agg, 'want': ref.agg}
+    if len(repr(d)) > 4000:
+      d = {'got_head': repr(agg)[:600], 'want_head': repr(ref.agg)[:600]}
+    problems.append(('agg-result-differs', d))
   if check_returned and returned != ref.returned:
     problems.append(('returned-aggregate-differs',
                      {'got': returned, 'want': ref.returned}))
@@ -182,33 +192,45 @@ def check_program(st, ops, agg, n, shard_cuts, max_shards=4, iter_source=True):
   # -- one record at a time through update_state ---------------------------------
   if agg:
     for cuts in ((), full_chain) if m > 1 else ((),):
-      replay = dict(base, strategy='update_state', cuts=list(cuts))
-      st.case(('update_state', ops, agg, n, cuts), nontrivial=nontrivial)
-      t = S.build_chained(ops, agg, S.make_source('seq', []), cuts)
-      try:
-        runner = t.make()
-        states = [runner.update_state(runner.create_state(), dict(r))
-                  for r in records] or [runner.create_state()]
-      except BaseException as e:  # pylint: disable=broad-except
-        if not isinstance(e, (Exception, StopIteration)):
-          raise
-        why = 'every-record-emits-a-batch'
-        if isinstance(e, StopIteration) and 0 in _emitted_per_record(ops, records):
-          why = 'record-emits-no-batch'
-        st.violation(f'C03:update_state:raise:{type(e).__name__}:{why}',
-                     dict(replay, error=repr(e)[:300]), replay=replay)
-        continue
-      try:
-        got = _merge_and_result(st, 'update_state', t, states, ops, agg, cuts,
-                                klass, replay)
-      except _Reported:
-        continue
-      if got != ref.agg:
-        why = 'no-record-emits-several-batches'
-        if max(_emitted_per_record(ops, records), default=0) > 1:
-          why = 'record-emits-several-batches'
-        st.violation(f'C03:update_state:agg-result-differs:{why}',
-                     dict(replay, got=got, want=ref.agg), replay=replay)
+      _check_update_state(st, ops, agg, records, cuts, ref, klass, base,
+                          nontrivial)
+
+
+def _check_update_state(st, ops, agg, records, cuts, ref, klass, base,
+                        nontrivial):
+  """The record-at-a-time driver: update_state per record into a fresh state,
+  then merge_states over all of them and get_result."""
+  n = len(records)
+  replay = dict(base, strategy='update_state', cuts=list(cuts))
+  st.case(('update_state', base.get('space'), ops, agg, n, cuts),
+          nontrivial=nontrivial)
+  t = S.build_chained(ops, agg, S.make_source('seq', []), cuts)
+  try:
+    runner = t.make()
+    states = [runner.update_state(runner.create_state(), dict(r))
+              for r in records] or [runner.create_state()]
+  except BaseException as e:  # pylint: disable=broad-except
+    if not isinstance(e, (Exception, StopIteration)):
+      raise
+    why = 'every-record-emits-a-batch'
+    if isinstance(e, StopIteration) and 0 in _emitted_per_record(ops, records):
+      why = 'record-emits-no-batch'
+    st.violation(f'C03:update_state:raise:{type(e).__name__}:{why}',
+                 dict(replay, error=repr(e)[:300]), replay=replay)
+    return
+  try:
+    got = _merge_and_result(st, 'update_state', t, states, ops, agg, cuts,
+                            klass, replay)
+  except _Reported:
+    return
+  if got != ref.agg:
+    why = 'no-record-emits-several-batches'
+    if max(_emitted_per_record(ops, records), default=0) > 1:
+      why = 'record-emits-several-batches'
+    d = dict(replay, got=got, want=ref.agg)
+    if len(repr(d)) > 4000:
+      d = dict(replay, got_head=repr(got)[:600], want_head=repr(ref.agg)[:600])
+    st.violation(f'C03:update_state:agg-result-differs:{why}', d, replay=replay)
 
 
 def _emitted_per_record(ops, records):
@@ -218,17 +240,44 @@ def _emitted_per_record(ops, records):
       'seq', [r]))).batches) for r in records]
 
 
-def _run_sharded(st, ops, agg, records, cuts, k, via, ref, klass, rows, replay):
+def _shard_runs(ops, agg, records, cuts, k, via, full):
+  """One observation per leaf shard of the strategy (via, k).
+
+  via: 'make' = make(shard=ShardConfig(i, k)) of the whole pipeline;
+  'source' / 'mseq-source' / 'iter-source' = data_source(ds.shard(i, k)) of a
+  SequenceDataSource over one sequence / over three sequences / of a
+  ShardedIterable; 'workers' = the k data sources that a first stage with
+  num_threads=k hands to its worker threads, each iterated by the same
+  pipeline without threads; 'make+workers' (k = (shards, threads)) = the same
+  inside every make(shard=) shard (shards of shards)."""
   from ml_metrics._src.chainables import io
+  if via == 'make':
+    for i in range(k):
+      yield S.run_iterate(full, shard=io.ShardConfig(shard_index=i, num_shards=k))
+  elif via in ('workers', 'make+workers'):
+    shards, threads = k if via == 'make+workers' else (None, k)
+    threaded = S.build_chained(ops, agg, S.make_source('seq', records), cuts,
+                               threads={0: threads})
+    outer = [None] if shards is None else [
+        io.ShardConfig(shard_index=i, num_shards=shards) for i in range(shards)]
+    for shard in outer:
+      sources = S.worker_sources(threaded, shard=shard)
+      if len(sources) != threads:
+        raise AssertionError(
+            f'{len(sources)} worker data sources for num_threads={threads}')
+      for src in sources:
+        yield S.run_iterate(full, data_source=src)
+  else:
+    kind = {'source': 'seq', 'iter-source': 'iter', 'mseq-source': 'mseq'}[via]
+    for i in range(k):
+      yield S.run_iterate(S.build_chained(
+          ops, agg, S.make_source(kind, records, shard=(i, k)), cuts))
+
+
+def _run_sharded(st, ops, agg, records, cuts, k, via, ref, klass, rows, replay):
   batches, states, returned_states = [], [], []
   full = S.build_chained(ops, agg, S.make_source('seq', records), cuts)
-  for i in range(k):
-    if via == 'make':
-      ob = S.run_iterate(full, shard=io.ShardConfig(shard_index=i, num_shards=k))
-    else:
-      kind = 'iter' if via == 'iter-source' else 'seq'
-      ob = S.run_iterate(S.build_chained(
-          ops, agg, S.make_source(kind, records, shard=(i, k)), cuts))
+  for ob in _shard_runs(ops, agg, records, cuts, k, via, full):
     batches += ob.batches
     states.append(ob.it_agg_state)
     returned_states.append(ob.agg_state)
@@ -239,9 +288,123 @@ def _run_sharded(st, ops, agg, records, cuts, k, via, ref, klass, rows, replay):
                    replay, replay=replay)
     merged = _merge_and_result(st, f'shard[{via}]', full, states, ops, agg,
                                cuts, klass, replay)
-  # with k shards the batch boundaries of a re-batching program move
+  # with several shards the batch boundaries of a re-batching program move
   _compare(st, f'shard[{via}]', klass, ref, batches, merged, None,
-           rows and k > 1, replay, check_returned=False)
+           rows and len(states) > 1, replay, check_returned=False)
+
+
+# -- long data sources --------------------------------------------------------------
+#
+# The library reads a random-access source ahead in windows
+# (iter_utils._RANDOM_ACCESS_BATCH_SIZE = 64 elements per refill of a shard's
+# range iterator), so a shard behaves differently once it is longer than one
+# window, ends inside a window, or is followed by more data.  The sizes below
+# put 1..4 windows -1/0/+1 element into the source, so that with 1..4 shards
+# leaf shards of 63/64/65/127/128/129 and of lengths in no relation to the
+# window (43, 50, 67, 86, 100 ..) occur in first, middle and last position.
+
+WINDOW = 64
+LONG_SIZES = {
+    'quick': (63, 64, 65, 100, 129, 130, 200, 257),
+    'thorough': tuple(sorted({WINDOW * w + d for w in (1, 2, 3, 4)
+                              for d in (-1, 0, 1)} | {100, 130, 200, 300})),
+}
+LONG_AGG_SIZES = {'quick': (65, 130, 200), 'thorough': (65, 129, 130, 200, 257)}
+SMALL_SIZES = (0, 1, 2, 3, 5)
+NESTED = ((2, 2), (2, 3), (3, 2), (3, 3))     # (make shards, worker threads)
+
+
+def check_sources(st, ops, agg, n, max_shards=4):
+  """Every way of cutting the data source of one program, for one dataset size
+  (the source-level strategies; no thread is started)."""
+  records = S.dataset(n)
+  klass = _klass(ops, agg)
+  rows = S.rebatches(ops)
+  base = {'ops': list(ops), 'agg': agg, 'n': n, 'space': 'sources'}
+  nontrivial = n > 0
+  st.case(('sources/reference', ops, agg, n), nontrivial=nontrivial)
+  try:
+    ref = S.reference(ops, agg, records)
+  except Exception as e:  # pylint: disable=broad-except
+    st.violation(f'C03:reference:raise:{type(e).__name__}',
+                 dict(base, error=repr(e)[:300]),
+                 replay=dict(base, strategy='reference'))
+    return
+  st.outcome(('sources', n, len(ref.batches), h64(repr(ref.agg))))
+  m = S.num_elements(ops, agg)
+  full_chain = tuple(range(1, m))
+  groupings = ((), full_chain) if m > 1 else ((),)
+  # -- whole source, fully chained ---------------------------------------------------
+  replay = dict(base, strategy='chain', cuts=list(full_chain))
+  st.case(('sources/chain', ops, agg, n, full_chain), nontrivial=nontrivial)
+  try:
+    ob = S.run_iterate(S.build_chained(ops, agg, S.make_source('seq', records),
+                                       full_chain))
+    _compare(st, 'chain', klass, ref, ob.batches, ob.agg, ob.returned, False,
+             replay)
+  except Exception as e:  # pylint: disable=broad-except
+    st.violation(f'C03:chain:raise:{type(e).__name__}',
+                 dict(replay, error=repr(e)[:300]), replay=replay)
+  # -- leaf shards -------------------------------------------------------------------
+  plans = []
+  for cuts in groupings:
+    for k in range(1, max_shards + 1):
+      plans += [('source', cuts, k), ('workers', cuts, k)]
+      if not cuts:
+        plans += [('make', cuts, k), ('mseq-source', cuts, k),
+                  ('iter-source', cuts, k)]
+    if not cuts:
+      plans += [('make+workers', cuts, kt) for kt in NESTED]
+  for via, cuts, k in plans:
+    replay = dict(base, strategy='shard', via=via, cuts=list(cuts),
+                  k=list(k) if isinstance(k, tuple) else k)
+    st.case(('sources/shard', via, ops, agg, n, cuts, k), nontrivial=nontrivial)
+    try:
+      _run_sharded(st, ops, agg, records, cuts, k, via, ref, klass, rows, replay)
+    except _Reported:
+      pass
+    except Exception as e:  # pylint: disable=broad-except
+      st.violation(f'C03:shard[{via}]:raise:{type(e).__name__}',
+                   dict(replay, error=repr(e)[:300]), replay=replay)
+  # -- one record at a time (as many states to merge as records) ----------------------
+  if agg:
+    _check_update_state(st, ops, agg, records, (), ref, klass, base, nontrivial)
+
+
+def source_programs(quick):
+  """-> ([(ops, agg, sizes)], description) of the source-level part."""
+  tier = 'quick' if quick else 'thorough'
+  plain = QUICK_OPS if quick else S.PLAIN_OPS
+  every = tuple(a for a in S.AGGS if a != 'racy')
+  lists = S.op_lists(1, plain=plain)
+  long_, long_agg = LONG_SIZES[tier], LONG_AGG_SIZES[tier]
+  out = [(ops, None, SMALL_SIZES + long_) for ops in lists]
+  out += [(ops, 'bag/a', SMALL_SIZES + long_agg) for ops in lists]
+  out += [((), a, SMALL_SIZES + long_agg) for a in every if a != 'bag/a']
+  if not quick:
+    out += [(ops, a, long_agg) for ops in lists if ops for a in every
+            if a != 'bag/a']
+  desc = ('every list of <= 1 operator (%s, r1, r2) without aggregate over n '
+          'in %s, with aggregate bag/a over n in %s, %s with every other '
+          'aggregate over n in %s'
+          % ('/'.join(plain), list(SMALL_SIZES + long_),
+             list(SMALL_SIZES + long_agg),
+             'the empty list' if quick else 'every such list', 
+             list(SMALL_SIZES + long_agg)))
+  return out, desc
+
+
+def _src_unit(args):
+  ops, agg, sizes = args
+  st = Stats()
+  for n in sizes:
+    check_sources(st, tuple(ops), agg, n)
+  return st
+
+
+def _e3_unit(item):
+  kind, args = item
+  return _src_unit(args) if kind == 'sources' else _seq_unit(args)
 
 
 def _seq_unit(args):
@@ -441,6 +604,7 @@ def run(ctx):
   n_max = 5 if quick else 7
   shard_cuts = 'ends' if quick else 'single'
   progs, progs_desc = programs(quick)
+  sprogs, sprogs_desc = source_programs(quick)
   tgroups = thread_configs(ctx.tier)
   igroups = interleaved_configs(ctx.tier)
   ctx.rule = (
@@ -455,7 +619,20 @@ def run(ctx):
       'stages x whole source, shard counts 1..4 (%s) through '
       'data_source(shard) and (single stage) make(shard=), merged with '
       'merge_states/get_result, and update_state per record (fused and fully '
-      'chained); threaded strategies (stateless DFS with happens-before '
+      'chained); source-level strategies over LONG data sources (sizes that '
+      'put 1..4 read-ahead windows of %d elements -1/0/+1 element, and sizes '
+      'in no relation to the window, into the source, so that leaf shards of '
+      '63/64/65/127/128/129 and 43..100 elements occur in first, middle and '
+      'last position): %s; for each (program, n): fully chained over the '
+      'whole source; shard counts k = 1..4 through data_source(ds.shard(i,k)) '
+      'and through the data sources a first stage with num_threads=k hands '
+      'to its workers (the runner\'s own sharding, each iterated without '
+      'threads; both fused and fully chained), through make(shard=), a '
+      'SequenceDataSource over 3 sequences (lengths n//3, 0, rest) and a '
+      'ShardedIterable (fused); shards of shards make(shard=(i,s)) x '
+      'num_threads=t for (s,t) in %s; update_state per record with n states '
+      'merged (fused); '
+      'threaded strategies (stateless DFS with happens-before '
       'caching over all schedules): %s; interleaved runner: %s. '
       'A case = one (program, dataset, strategy) run resp. one complete '
       'execution (distinct choice sequence)'
@@ -463,6 +640,7 @@ def run(ctx):
          list(S.ROWS_PER_RECORD[:n_max]),
          'with the fused and the fully chained grouping' if quick
          else 'with the fused, every two-stage and the fully chained grouping',
+         WINDOW, sprogs_desc, [list(x) for x in NESTED],
          '; '.join(f'{l} ({len(c)} configurations)' for l, _, c in tgroups),
          '; '.join(f'{l} ({len(c)} configurations)' for l, _, c in igroups)))
   ctx.assumptions += [
@@ -478,11 +656,23 @@ def run(ctx):
   ]
   if 'sequential' in only:
     per = 6 if quick else 3
-    units = [(u, tuple(range(n_max + 1)), shard_cuts)
+    units = [('programs', (u, tuple(range(n_max + 1)), shard_cuts))
              for u in enums.chunks(ctx.shuffled(progs),
                                    max(1, len(progs) // per))]
-    ctx.pmap(_seq_unit, units)
+    # source-level part: one unit per (program, long size), the small sizes of
+    # a program together; the long units go first (they are the longest)
+    src_units = []
+    for ops, agg, sizes in sprogs:
+      small = tuple(n for n in sizes if n < WINDOW - 1)
+      src_units += [('sources', (ops, agg, (n,))) for n in sizes
+                    if n >= WINDOW - 1]
+      if small:
+        src_units.append(('sources', (ops, agg, small)))
+    src_units.sort(key=lambda u: -sum(u[1][2]))
+    ctx.pmap(_e3_unit, src_units + units)
     ctx.notes['programs'] = len(progs)
+    ctx.notes['source_level_programs'] = len(sprogs)
+    ctx.notes['read_ahead_window'] = WINDOW
   # One work list for both E1 parts, so that every core stays busy: every
   # configuration is first expanded breadth-first into >= SPLIT subtrees.
   seeds = []
@@ -528,5 +718,8 @@ def replay(ctx, data):
       print(e)
     for sig, detail in problems:
       ctx.violation(sig, detail)
+    return
+  if r.get('space') == 'sources':
+    check_sources(ctx, tuple(r['ops']), r['agg'], r['n'])
     return
   check_program(ctx, tuple(r['ops']), r['agg'], r['n'], 'all')
